@@ -180,12 +180,13 @@ PROPS = {
         level='proof',
         units=['path:topology::Topology::*', 'nameglob:LIST.NEIGHBOR*'],
         explanation='decompose_index: digits below the edge length, panic-free for an edge length >= 1; euclidean_distance == sqrt of the accumulated squared differences (f32 operations uninterpreted), None on a length mismatch; '
-                    'decompose_index returns exactly the mixed-radix digits index / nedge^k % nedge (None exactly when a power overflows); '
+                    'decompose_index returns exactly the mixed-radix digits index / nedge^k % nedge (None exactly when a power overflows), with the lemmas: recombining the digits gives index mod nedge^ndim (an index inside the hypercube is recovered exactly), '
+                    'and two indices inside the hypercube with the same coordinates are equal (injectivity); '
                     'find_neighbors: Some exactly for valid parameters without power overflow, every returned index in 0..ntotal, strictly ascending (hence no repeats), and the result is EXACTLY the ascending sequence of the indices i in 0..ntotal with '
                     'sqrt(sum_k (centre_k - i_k)^2) <= radius over the digit vectors in the hypercube of edge ceil(ntotal^(1/ndim)) (f32 operations uninterpreted, in the order the code applies them), panic-free, terminating (R7: `usize as f32` / `f32 as usize` go through wrapper functions whose bodies are the casts); LIST.NEIGHBOR*IDS pushes exactly find_neighbors(max(size,0), clamp(dims,0,size), clamp(index,0,size-1), max(radius,0)); *BVALS/IVALS/FVALS push the addressed value of the record at each neighbour CODE position (neighbours beyond the CODE stack skipped); nothing is pushed for an invalid topology',
         not_decided=['contains-the-centre, symmetry, monotonicity in the radius: need IEEE facts about sqrt/powf/<= (x-x = 0, powf(0,2) = 0, transitivity ...) that are uninterpreted in Verus and over-approximated by CBMC; "smallest enclosing hypercube" is the value of ceil(powf(..)), uninterpreted',
                      '*VALS with a negative position operand (`as usize` of a negative i32): only shapes',
-                     'bijectivity of the decomposition: the digits are proved to be the mixed-radix digits; that distinct indices below nedge^ndim have distinct digit vectors is not proved as a lemma'],
+                     'surjectivity of the decomposition (every digit vector below the edge length is the image of an index) is not stated as a lemma; injectivity and exact recovery are (below)'],
         assumptions=['float fact L3 (assume in find_neighbors, NOT checked by any installed tool): for ntotal >= 1, ndim >= 1 the edge length ceil(ntotal^(1/ndim)) is >= 1',
                      'float fact L4 (axiom ax_f32_constants) and the assumed contract of f32::clamp: checked by the Kani harness l4_f32_constants in the thorough tier (not used on the current tree; they keep refactors that use the constants decidable)'],
         thorough=True,
